@@ -67,8 +67,6 @@ NA_FIXED = {
         "exact modelling exceeds TLC integers, abstraction would restate the "
         "postconditions (integer part good_mg_cell_nr is checked as extra "
         "coverage in MGParams)",
- "C19": "agreement of complex responses with an external 1D modeller and "
-        "ellipse geometry in reals",
 }
 
 CLAIMED["C12"] = dict(
@@ -334,7 +332,44 @@ CLAIMED["C03"] = dict(
   note="Trusted: TLC, harness/fit.py (validated under C02), tolerances.",
   ref="DESIGN.md section 5 (C03)", engine="tlc-smoother")
 
+CLAIMED["C19"] = dict(
+  category="exploration",
+  technique="TLA+ model of the layered-mode control flow (Layered.tla: "
+            "per-source tasks, receiver loop, finite-data rule, extraction "
+            "points per method, forward / finite-difference schedule) "
+            "checked exhaustively by TLC + TLC trace validation of recorded "
+            "real layered Simulations (TraceLayered.tla) whose End event "
+            "classifies every stored response against the 1-D modeller "
+            "called directly; TLA+ exact-arithmetic reference of the "
+            "ellipse selection and area weights (Extract1D.tla) + TLC "
+            "validation of the real ellipse_indices / extract_1d output",
+  text="Partial claim.  TLC decides the discrete clauses: a response is "
+       "stored exactly for the triples with finite observed data (or all), "
+       "it is the modeller's answer for that very triple, the modeller is "
+       "asked for exactly the wanted frequencies, extraction points follow "
+       "the method, the finite-difference gradient perturbs every layer of "
+       "every direction once per contributing source-receiver pair (never "
+       "y, vertical iff VTI) and is zero without data; extraction weights "
+       "are non-negative, sum to one and are the area weights of the "
+       "documented ellipse (checked entry by entry on the real code's "
+       "matrices).  The agreement with the 1-D reference modeller (rtol "
+       "1e-9), independence of method/ellipse and the gradient layer sums "
+       "vs the misfit change under a uniform layer perturbation (rtol 1e-6) "
+       "are floating-point observations made on every recorded run (60 "
+       "quick / 600 thorough simulations over 6 mappings, iso/VTI, "
+       "electric/magnetic point/dipole sources and receivers, 5 methods, "
+       "NaN gap patterns) and handed to TLC as booleans.",
+  note="Trusted: TLC, empymod as the reference modeller (environment), the "
+       "recorder in harness/c19.py (wraps _multiprocessing.layered, "
+       "_empymod_fwd, Model.extract_1d at run time), tolerances.  Exploration "
+       "level: the numerical content is observed, not modelled.",
+  ref="DESIGN.md section 5 (C19)", engine="tlc-layered")
+
 ENGINES = [
+ dict(name="tlc-layered", path="spec/Layered.tla", serves_properties=["C19"],
+      kind_free_text="TLA+ spec + TLC exhaustive + TLC trace validation; "
+                     "exact-arithmetic reference + TLC validation of code "
+                     "output"),
  dict(name="tlc-smoother", path="spec/Smoother.tla", serves_properties=["C03"],
       kind_free_text="TLA+ structure model + TLC validation of numeric "
                      "observations"),
